@@ -25,6 +25,15 @@ CHECKS = {
         "note": ENGINE_NOTE,
         "technique": "TLA+ reference model evaluated by TLC on recorded failure-grid traces (code->spec trace validation)",
     },
+    "C06": {
+        "level": "model_checking",
+        "text": "Random histories run on a FileStore with close/reopen points; every reload is recorded (state, index definitions and listings, complete change log, "
+                "BSON bytes of every document as opaque tokens) and judged by TLC as the identity; the history continues on the reopened engine and every later call "
+                "is validated against Database!Exec, so constraints are enforced, not just listed. A typed-pool scenario covers every supported type at its edges in "
+                "four positions with unique+partial, TTL(0), TTL(3600) and nested-path indexes; a retention scenario closes right after a trimming commit.",
+        "note": ENGINE_NOTE + " BSON bytes are opaque tokens (codec fidelity is decided by token equality inside the trace validation, not by modelling BSON).",
+        "technique": "TLA+ reference model with Reload as identity, evaluated by TLC on traces recorded across real close/reopen cycles",
+    },
     "C07": {
         "level": "model_checking",
         "text": "Database!UniqueOK (the specification's own multikey/compound/partial key extractor) is evaluated by TLC on every observed state of collision "
@@ -49,6 +58,15 @@ CHECKS = {
                 "conflicting one fails, drops spare _id_); the position index of every document set is checked by the harness.",
         "note": ENGINE_NOTE + " Index.List() hides duplicate entries of one document.",
         "technique": "TLA+ invariant IndexListingOK and reference model evaluated by TLC on recorded traces (code->spec trace validation)",
+    },
+    "C19": {
+        "level": "model_checking",
+        "text": "States with 0-2 TTL indexes (incl. expireAfterSeconds 0, a partial TTL index) next to other indexes are built through the driver API over a pool of 20 "
+                "value shapes per TTL field with >= 30 min margins; the real Transaction.Expire is run and committed twice and the background loop once; TLC computes "
+                "Database!ExpireDb (cutoff by exact decimal arithmetic) on the observed pre-state and compares post-state, delete events per namespace and index listings, "
+                "and requires that a pass which removes nothing changes nothing.",
+        "note": ENGINE_NOTE + " TTL fields are top-level; clock skew between the recorded time and lungo's reading is far below the 30 min margins.",
+        "technique": "TLA+ specification of TTL expiry evaluated by TLC on recorded real expiry passes (code->spec trace validation)",
     },
     "C10": {
         "level": "model_checking",
